@@ -159,3 +159,46 @@ func ZZC05Pat(n int) {
 		zzv.Assert(!zzv.IsRuntime(rec), "pattern:Handle-runtime-fault-on-populated-router")
 	}
 }
+
+var zzRuleAlphabets = [][]string{{"a", "(", ")", "|", "?", "*", "\\", "b"}, {"a", "(", ")", "|", "b"}}
+
+// ZZC05Rule(n): patterns whose regexp rule is every string of <= n/10 symbols over a small
+// alphabet of metacharacters; every pattern Handle accepts must then serve every path of
+// <= n%10 bytes without a runtime fault. n = alphabet*100 + maxSymbols*10 + maxPathLen.
+func ZZC05Rule(n int) {
+	rule := ""
+	alpha := zzRuleAlphabets[n/100]
+	n %= 100
+	k := zzv.Choice("len", n/10) + 1
+	for i := 0; i < k; i++ {
+		rule += alpha[zzv.Choice("sym", len(alpha))]
+	}
+	pat := "/{id:" + rule + "}" + []string{"", "x"}[zzv.Choice("suffix", 2)]
+	r := NewRouter[*hnd]("r", zzCall, &hnd{id: id404}, zzB405, zzBOpt)
+	var rec any
+	func() {
+		defer func() { rec = recover() }()
+		r.Handle(pat, &hnd{id: 1}, nil, "GET")
+	}()
+	if rec != nil {
+		zzv.Cover("rule-rejected")
+		zzv.Assert(!zzv.IsRuntime(rec), "rule:Handle-runtime-fault")
+		zzv.Assert((CheckSyntax(pat) != nil), "rule:Handle-rejects-what-CheckSyntax-accepts")
+		return
+	}
+	zzv.Cover("rule-accepted")
+	zzv.Assert(CheckSyntax(pat) == nil, "rule:Handle-registers-what-CheckSyntax-rejects")
+	path := zzv.Bytes("p", n%10)
+	o := &zzObs{}
+	zzO = o
+	w := newW()
+	p, rt := zzGuard(func() { r.ServeHTTP(w, zzReq("GET", path)) })
+	zzv.Obs("id", o.id)
+	zzv.Assert(!rt, "rule:runtime-fault-serving-a-pattern-that-Handle-accepted")
+	zzv.Assert(!p && o.calls == 1, "rule:panic-serving-a-pattern-that-Handle-accepted")
+	if o.id == 1 {
+		zzv.Cover("rule-served")
+		v, ok := o.params.Get("id")
+		zzv.Assert(ok && o.params.Count() == 1 && len(v) <= len(path), "rule:served-without-its-parameter")
+	}
+}
